@@ -116,6 +116,96 @@ PLANS["C04"] = {
     "must_exercise": ["layout.case", "layout.unsized"], "assumptions": CODEC_ASSUME, "exhaustive": True,
 }
 
+# ---- IO ------------------------------------------------------------------------------------------------
+IO_BASE = """CONSTANTS
+  NV = 2
+  MaxLen = 2
+  MaxItems = 1
+  ArgVals = 1
+  AssignMax = 4
+"""
+
+def io_recv_cfg(msg, nmsgs, chunk, faults, policy, record, arbitrary=False, rawlen=0, live=False):
+    name = "MCIoRecv_%s_n%d_c%d_f%d_%s%s%s.cfg" % (msg, nmsgs, chunk, faults, policy, "_arb%d" % rawlen if arbitrary else "", "_live" if live else "")
+    txt = "SPECIFICATION %s\n" % ("SpecP" if record else "Spec") + IO_BASE + """  MsgId = "%s"
+  NMsgs = %d
+  RawLen = %d
+  RawAlphabet = {0, 1, 2, 255}
+  Arbitrary = %s
+  MsgT <- MT
+  Streams <- MCStreams
+  MaxMsgLen <- MML
+  ChunkMax = %d
+  FaultMax = %d
+  Policy = "%s"
+  Record = %s
+""" % (msg, nmsgs, rawlen, "TRUE" if arbitrary else "FALSE", chunk, faults, policy, "TRUE" if record else "FALSE")
+    if record:
+        txt += "VIEW View\n"
+    txt += "INVARIANTS WindowInv HeadInv GuardInside BoundedCalls DeliveredInOrder ClosedMeansAll ParseNotStarve\n"
+    if live:
+        txt += "PROPERTY Terminates\n"
+    txt += "CHECK_DEADLOCK FALSE\n"
+    return {"type": "tlc-only" if not record else "tlc-replay", "module": "MCIoRecv", "cfg": name, "cfg_text": txt}
+
+def io_send_cfg(msg, nmsgs, chunk, faults, retry, record, live=False):
+    name = "MCIoSend_%s_n%d_c%d_f%d_r%d%s.cfg" % (msg, nmsgs, chunk, faults, retry, "_live" if live else "")
+    txt = "SPECIFICATION %s\n" % ("SpecP" if record else "Spec") + IO_BASE + """  MsgId = "%s"
+  NMsgs = %d
+  MsgT <- MT
+  Msgs <- MCMsgs
+  ChunkMax = %d
+  FaultMax = %d
+  Retry = %d
+  Record = %s
+""" % (msg, nmsgs, chunk, faults, retry, "TRUE" if record else "FALSE")
+    if record:
+        txt += "VIEW View\n"
+    txt += "INVARIANTS SinkFramed BoundedCalls PoisonedStops\n"
+    if live:
+        txt += "PROPERTY Terminates\n"
+    txt += "CHECK_DEADLOCK FALSE\n"
+    return {"type": "tlc-only" if not record else "tlc-replay", "module": "MCIoSend", "cfg": name, "cfg_text": txt}
+
+IO_ASSUME = [
+    "host: x86-64 little-endian; message types and contents from the catalog; streams built by the reference encoder",
+    "the environment is a script of pipe outcomes; Data(n) means 'up to n bytes'; thread interleavings over a byte pipe are equivalent to chunkings (as the property states)",
+    "the path of every generated transition of the code-policy instance is replayed; the returns after the last scripted pipe call are judged by the paths that contain them",
+]
+IO_NOTE = ("Trusted: TLC, spec/IoRecv.tla + IoSend.tla (+ the codec specification they import for Validate/Size), the scripted pipes of harness/src/io.rs. "
+           "Bounds: message types/sets, ChunkMax, fault budget of the generated configurations.")
+
+def io_plan(level_text, rule, must, quick, thorough):
+    return {"technique": TECH + "; recorded window traces validated against the specification", "level_text": level_text, "level_note": IO_NOTE,
+            "quick": quick, "thorough": thorough, "rule": rule, "must_exercise": must, "assumptions": IO_ASSUME, "exhaustive": True}
+
+IO_TEXT = ("IoRecv / IoSend are explicit TLA+ state machines of the framed IO algorithms, one action per pipe call or window mutation, whose Validate and Size are the codec specification's. "
+           "TLC checks WindowInv, HeadInv (nothing lost/duplicated/reordered by compaction), GuardInside, DeliveredInOrder, ClosedMeansAll, BoundedCalls, ParseNotStarve, SinkFramed, PoisonedStops in every state for every chunking / fault placement, "
+           "and termination under fairness on the permissive (any-policy) instance; the code-policy instance prints the environment script of every generated transition, which is replayed into the real blocking Sender / Receiver over scripted pipes.")
+
+PLANS.update({
+    "C07": io_plan(IO_TEXT, "one path per generated transition of the fault-free receiver and sender models (every composition of the stream into read / write chunk sizes up to ChunkMax, message sets rotated so every message is first/middle/last); non-trivial = all",
+                   ["iorecv.valid.*", "iosend.*"],
+                   [io_recv_cfg("UE6", 3, 24, 0, "any", False, live=True), io_send_cfg("UE6", 3, 12, 0, 0, False, live=True)]
+                   + [io_recv_cfg(m, n, c, 0, "code", True) for m, n, c in [("UE6", 3, 24), ("US2", 2, 16), ("V_u8_u32", 2, 16), ("X_vu8_u8", 2, 8)]]
+                   + [io_send_cfg(m, 3, 12, 0, 0, True) for m in ["UE6", "US2", "X_vu8_u8"]],
+                   [io_recv_cfg("UE6", 3, 24, 0, "any", False, live=True), io_send_cfg("UE6", 3, 12, 0, 0, False, live=True)]
+                   + [io_recv_cfg(m, n, c, 0, "code", True) for m, n, c in [("UE6", 4, 24), ("US2", 3, 16), ("US1", 2, 48), ("V_u8_u32", 3, 16), ("X_vu8_u8", 3, 8), ("UE1", 3, 16), ("SS1", 2, 48)]]
+                   + [io_send_cfg(m, 3, 16, 0, 0, True) for m in ["UE6", "US2", "US1", "X_vu8_u8", "UE1", "V_u8_u32"]]),
+    "C09": io_plan(IO_TEXT, "paths of the receiver model with injected transient read errors / end of stream at every call, and of the sender model with write errors, zero-length writes (transient and persistent) at every call; non-trivial = paths containing at least one fault",
+                   ["iorecv.valid.*.faults", "iosend.*.faults"],
+                   [io_recv_cfg("UE6", 2, 8, 1, "any", False, live=True), io_send_cfg("UE6", 3, 12, 2, 1, False, live=True)]
+                   + [io_recv_cfg(m, 2, 8, 1, "code", True) for m in ["UE6", "US2"]]
+                   + [io_send_cfg(m, 3, 12, 2, 0, True) for m in ["UE6", "US2", "X_vu8_u8"]],
+                   [io_recv_cfg("UE6", 2, 8, 2, "any", False, live=True), io_send_cfg("UE6", 3, 12, 2, 1, False, live=True)]
+                   + [io_recv_cfg(m, 3, 8, 2, "code", True) for m in ["UE6", "US2", "X_vu8_u8", "V_u8_u32"]]
+                   + [io_send_cfg(m, 3, 12, 3, 0, True) for m in ["UE6", "US2", "X_vu8_u8", "UE1"]]),
+    "C10": io_plan(IO_TEXT, "receiver model fed arbitrary streams: all strings over {0,1,2,255} up to RawLen, a valid stream with one byte replaced (first 12 positions x 3 values), a valid stream truncated at every position; every chunking; non-trivial = all",
+                   ["iorecv.arbitrary.*"],
+                   [io_recv_cfg(m, 2, 4, 0, "code", True, arbitrary=True, rawlen=r) for m, r in [("UE6", 4), ("X_vu8_u8", 4), ("US2", 3)]],
+                   [io_recv_cfg(m, 2, 6, 0, "code", True, arbitrary=True, rawlen=r) for m, r in [("UE6", 5), ("X_vu8_u8", 5), ("US2", 4), ("UE1", 4), ("X_s8_u16", 4)]]),
+})
+
 META = {
     "guard": "cargo feature `verif` of flatty-io (io hooks; not yet committed)",
     "enable": "the harness depends on /repo by path; io hooks: flatty-io with features = [\"verif\"]",
